@@ -304,6 +304,17 @@ func ThresholdScripts() []Script {
 		walk(KApproveRegSV, Const("0"), cross([2]string{KApproveRemSV, "0"})),
 		walk(KApproveRemSV, Const("0"), nil),
 	}, Tail: 15})
+	out = append(out, Script{Name: "candidate-second-applicant-while-partially-approved", Steps: []Step{
+		OpStep(func(g *Gen) *Op { return &Op{Kind: KRegisterCandidate, Actor: g.W.Owners[0], Node: candKey(g).Key.PubHex()} }),
+		func(g *Gen) []*Op {
+			ops := g.Round(KApproveCandidate, candKey(g).Key.PubHex(), "partial-round", false)
+			return ops[:Threshold(len(ops))-1]
+		},
+		OpStep(func(g *Gen) *Op { return &Op{Kind: KRegisterCandidate, Actor: g.W.Owners[1], Node: candKey(g).Key.PubHex(), Tag: "second-applicant"} }),
+		OpStep(func(g *Gen) *Op { return &Op{Kind: KUnRegisterCandidate, Actor: g.W.Owners[1], Node: candKey(g).Key.PubHex(), Tag: "by-other"} }),
+		OpStep(func(g *Gen) *Op { return &Op{Kind: KRegisterCandidate, Actor: candKey(g), Node: candKey(g).Key.PubHex(), Tag: "second-applicant"} }),
+		RoundStep(KApproveCandidate, func(g *Gen) string { return candKey(g).Key.PubHex() }, "rest-of-round"),
+	}, Tail: 10})
 	out = append(out, Script{Name: "threshold-node", Extra: 1, Steps: []Step{
 		OpStep(func(g *Gen) *Op { return &Op{Kind: KRegisterCandidate, Actor: g.W.Owners[0], Node: g.W.Nodes[g.W.N0].Key.PubHex()} }),
 		OpStep(func(g *Gen) *Op { return &Op{Kind: KRegisterCandidate, Actor: g.W.Owners[1], Node: g.W.Nodes[g.W.N0+1].Key.PubHex()} }),
@@ -386,7 +397,29 @@ func RegistryScripts() []Script {
 		RoundStep(KApproveUpdateSC, idStr(0), "pending-update-of-removed-chain"),
 		RoundStep(KApproveRegisterSC, idStr(0), "registration-of-free-id"),
 	}, Tail: 10}
-	return []Script{stale, {Name: "registry-non-owner-paths", Steps: []Step{
+	// a second requester files a request for an id whose request is pending and partially approved
+	partial := func(method string, id uint64, tag string) Step {
+		return func(g *Gen) []*Op {
+			ops := g.Round(method, fmt.Sprint(id), tag, false)
+			t := Threshold(len(ops))
+			if t-1 < len(ops) {
+				ops = ops[:t-1]
+			}
+			return ops
+		}
+	}
+	swap := Script{Name: "registry-second-requester-while-partially-approved", Steps: []Step{
+		regChain(2, ownerN(0)), partial(KApproveRegisterSC, 2, "partial-round"),
+		regChain(2, ownerN(1)), regChain(2, other), // other applicants for the pending id
+		RoundStep(KApproveRegisterSC, idStr(2), "rest-of-round"),
+		updChain(2, ownerN(0)), partial(KApproveUpdateSC, 2, "partial-round"),
+		updChain(2, ownerN(1)), naming(KUpdateSideChain, 2, other, ownerN(0)), // non-owners while an update is pending
+		RoundStep(KApproveUpdateSC, idStr(2), "rest-of-round"),
+		quitChain(2, ownerN(0)), partial(KApproveQuitSC, 2, "partial-round"),
+		quitChain(2, ownerN(1)),
+		RoundStep(KApproveQuitSC, idStr(2), "rest-of-round"),
+	}, Tail: 10}
+	return []Script{stale, swap, {Name: "registry-non-owner-paths", Steps: []Step{
 		regChain(maxChainID, ownerN(0)),
 		regChain(maxChainID, ownerN(1)), // second request for the same id while pending
 		RoundStep(KApproveRegisterSC, idStr(maxChainID), "first-round"),
